@@ -213,11 +213,6 @@ def malformedB (toks : List (Nat × Str)) : Bool :=
 /-- The numbered hint tokens of a text. -/
 def hintToks (c : Str) : List (Nat × Str) := numberedTokens 1 (splitNL c)
 
-/-- The text contains none of the four separators 0x1c–0x1f (FS, GS, RS, US): the only characters
-of the model alphabet that are white space for `str.strip()` / `str.split()` and not for the regex
-engine's `\\s`. -/
-def noFS (s : Str) : Bool := s.all fun c => !(28 ≤ c.toNat && c.toNat ≤ 31)
-
 /-! ### Hygiene: what `decorate` assumes of the program and of the labels -/
 
 def noM13 (l : Str) : Bool := !hasInfix m13 l
